@@ -108,8 +108,10 @@ def race_modules(order, log):
             return launch
     cu = Cuda()
     GC = clone_module(cc, dict(np=NP, math=MathShim(), cuda=cu, THREADS_PER_BLOCK=4, _reduce_stats_nb=G["_reduce_stats_nb"]))
+    import types as _ty
     for name in list(GC):
-        if name.endswith("_cuda_kernel") and callable(GC[name]) and not isinstance(GC[name], Kern):
+        real = cc.__dict__.get(name)
+        if real is not None and hasattr(real, "py_func") and not isinstance(real, _ty.FunctionType) and "cuda" in type(real).__module__ and callable(GC[name]) and not isinstance(GC[name], Kern):
             GC[name] = Kern(GC[name], cu)
     return G, GC
 
@@ -267,9 +269,15 @@ def ob_plot_history(W, which, kw):
     pre = {a: getattr(r, a) for a in names[::3]}
     if W.sym:
         ct = type("ct", (), {"mag2db": staticmethod(lambda m: m)})
-        f = clone(A.SpectrumResult.plot, np=NumpyShim(), plt=_Plt(), ct=ct)
+        # the result object is already an instance of the fully cloned class; give its module namespace the inert pyplot
+        G = R._C["G"]
+        old_plt, old_ct = G.get("plt"), G.get("ct")
+        for fn_ in vars(type(r)).values():
+            if hasattr(fn_, "__globals__"):
+                fn_.__globals__["plt"] = _Plt(); fn_.__globals__["ct"] = ct
+                break
         try:
-            f(r, which, **kw)
+            r.plot(which, **kw)
         except (ValueError, TypeError) as e:
             W.note("plot raised %r on symbolic data (not part of the property)" % (e,))
     else:
